@@ -279,6 +279,8 @@ def shallow_snapshot(obj):
     from models import np_model, pd_model
     if isinstance(obj, list):
         return ("list", list(obj))
+    if isinstance(obj, (set, frozenset)) or type(obj).__name__ in ("ShellMutableSet", "LinearSet"):
+        return ("set", [x for x in obj])
     if isinstance(obj, dict):
         return ("dict", list(obj.items()))
     if isinstance(obj, np_model.NDArray):
@@ -296,6 +298,9 @@ def unchanged(obj, snap):
     same = lambda xs, ys: len(xs) == len(ys) and all(x is y for x, y in zip(xs, ys))
     if kind == "list":
         return isinstance(obj, list) and same(obj, snap[1])
+    if kind == "set":
+        now = [x for x in obj]
+        return len(now) == len(snap[1]) and all(any(x is y for y in now) for x in snap[1])
     if kind == "dict":
         items = list(obj.items())
         return len(items) == len(snap[1]) and all(k1 == k2 and v1 is v2 for (k1, v1), (k2, v2) in zip(items, snap[1]))
